@@ -139,6 +139,8 @@ impl<'p> AsMut<HashMap<Cell, &'p Property>> for PropertyBuffer<'p> {
 impl<'p> From<PropertyBuffer<'p>> for FragmentBuffer {
     fn from(property_buffer: PropertyBuffer<'p>) -> FragmentBuffer {
         let mut fb = FragmentBuffer::new();
+        #[cfg(feature = "verif")]
+        let property_buffer = crate::verif::OrderedView::new(property_buffer.0);
         for (cell, property) in property_buffer.as_ref() {
             let empty = &&Property::empty();
             let top_left = property_buffer
